@@ -310,3 +310,36 @@ def g_upgrade(v: int, arg: str, shared: bool, static: bool, compdb: bool, val: s
     ok = ok and env.host_platform.name == 'linux' and env.target_platform.name == 'linux'
     ok = ok and env.toolchain.path is None and env.mopack == []
     return R(ok)
+
+
+# ---- a toolchain file's install_dirs() only counts at configure time -----------------------------
+from bfg9000.builtins import toolchain as btoolchain
+
+
+class _TCEnv:
+    def __init__(self):
+        self.install_dirs = {InstallRoot.prefix: Path('/cmdline', Root.absolute)}
+
+
+class _TCContext:
+    def __init__(self, env, regenerating):
+        self.env = env
+        self.regenerating = regenerating
+
+
+def d_install_dirs_replay(mode: int, s: str) -> bool:
+    """install_dirs(prefix=...) in a toolchain file sets the directory on the first configure
+    (where the command line is applied afterwards); when the toolchain file is replayed for an
+    explicit *or lazy* regeneration the saved directories -- which include what the command line
+    chose -- are left alone
+    pre: 0 <= mode < 3 and len(s) <= VL and no_ctl(s) and '/' not in s and chr(92) not in s
+    pre: s not in ('.', '..') and not s.startswith('~') and s[1:2] != ':'
+    post: _
+    """
+    env = _TCEnv()
+    m = [Regenerating.false, Regenerating.lazy, Regenerating.true][mode]
+    btoolchain.install_dirs(_TCContext(env, m), prefix='/opt/' + s)
+    got = env.install_dirs[InstallRoot.prefix]
+    if mode == 0:
+        return R(got.suffix == ('/opt/' + s if s else '/opt') and got.root == Root.absolute)
+    return R(got.suffix == '/cmdline')
